@@ -3,7 +3,11 @@
 Operations: add_slide(L) for three layouts of the template (0 Title Slide: ctrTitle+subTitle with own xfrm;
 1 Title and Content: title inherits from the master, content placeholder of absent type; 10 Vertical Title and
 Text: orient=vert), move (set left and top of a placeholder of the first / last created slide), resize (set width
-and height), text (type into a placeholder), notes (access notes_slide and type text), save.
+and height), text (type into a placeholder), notes (access notes_slide and type text), save, and rename: the public call
+`placeholder.name = first.name` on every placeholder of the three layouts (target=layouts) or of the notes master
+(target=notes_master; `prs.notes_master` creates the default one when the deck has none), so that the slides / notes
+slides made AFTERWARDS come from sources whose placeholders all share one name. The model does not change on rename:
+the names of a slide's placeholders must be pairwise distinct whatever the source calls its own.
 
 Reference model: list of created slides, each {layout part name, overrides {placeholder position: {attr: value}},
 text, notes}. Invariant in EVERY state, in memory and after save + re-open: every created slide mirrors its own
@@ -33,6 +37,7 @@ OPS = (
     + [{"op": "text", "slide": s, "ph": k} for s, k in (("first", 0), ("last", 1))]
     + [{"op": "notes", "slide": s} for s in ("first", "last")]
     + [{"op": "save"}]
+    + [{"op": "rename", "target": t} for t in ("layouts", "notes_master")]
 )
 
 
@@ -102,6 +107,19 @@ class System:
         if kind == "save":
             F.save_bytes(prs)
             return "ok"
+        if kind == "rename":
+            if op["target"] == "layouts":
+                colls = [prs.slide_layouts[l].placeholders for l in LAYOUTS]
+            else:
+                colls = [prs.notes_master.placeholders]
+            n = 0
+            for coll in colls:
+                phs = list(coll)
+                for p in phs[1:]:
+                    if p.name != phs[0].name:
+                        n += 1
+                    p.name = phs[0].name
+            return "ok:%s" % ("renamed" if n else "no-change")
         j, slide = _created(live, op["slide"])
         if slide is None:
             return SKIP
